@@ -12,7 +12,7 @@ from mc.run import Hang
 
 ID = "C22"
 LEVEL = "exploration"
-WATCHDOG_S = 20.0
+WATCHDOG_S = 60.0  # generous: a case needs ~2 ms; only guards against starvation on a shared machine
 ASSUMPTIONS = [
     "sync scheduler; finite cells are small distinct integers (also in the float arrays), so sums/products/scans are exact in every "
     "association order and only mean/var/std/moment and the hand-written nanquantile need a tolerance (rtol = atol = 1e-9*size; 1e-5*size for float32)",
